@@ -65,10 +65,12 @@ pub assume_specification<T, U, F: FnOnce(T) -> U>[ Option::<T>::map_or ](o: Opti
 pub assume_specification<T: Default>[ std::mem::take ](x: &mut T) -> (r: T) ensures r == *old(x);
 // core's reflexive `impl<T> From<T> for T`
 pub assume_specification<T>[ <T as From<T>>::from ](t: T) -> (r: T) ensures r == t;
-pub assume_specification<T: Clone>[ <[T]>::to_vec ](s: &[T]) -> (r: Vec<T>) ensures r@.len() == s@.len();
+pub assume_specification<T: Clone>[ <[T]>::to_vec ](s: &[T]) -> (r: Vec<T>)
+    ensures r@.len() == s@.len(), forall|i: int| 0 <= i < s@.len() ==> cloned::<T>(s@[i], #[trigger] r@[i]);
 // the UTF-8 bytes of a string (an uninterpreted function of the string; Rust caps every allocation at isize::MAX bytes)
 pub uninterp spec fn str_bytes(s: String) -> VSeq<u8>;
 pub assume_specification[ String::as_bytes ](s: &String) -> (r: &[u8]) ensures r@ == str_bytes(*s), r@.len() <= isize::MAX;
+pub assume_specification<T: ?Sized, A: std::alloc::Allocator>[ <Box<T, A> as AsRef<T>>::as_ref ](b: &Box<T, A>) -> (r: &T) ensures r == &**b;
 // panics if rhs == 0 or on MIN % -1 (std docs); the result is the non-negative remainder
 pub assume_specification[ isize::rem_euclid ](x: isize, rhs: isize) -> (r: isize)
     requires rhs != 0, !(x == isize::MIN && rhs == -1)
